@@ -566,6 +566,14 @@ theorem gen_classify_table :
     Gen.C18.classifyWhich 3 = 1 ∧ Gen.C18.classifyWhich 2 = 2 ∧ Gen.C18.classifyWhich 1 = 3 ∧
     Gen.C18.classifyWhich 0 = 0 := by decide
 
+/-- **gen_classify_subclasses**: the regenerated chain treats an instance of a user-defined SUBCLASS of
+    ComponentSource / IslandSource / SimpleSource (class codes 6, 5, 4) exactly like an instance of the base
+    class — it is `isinstance` dispatch, not exact-class dispatch; this is what licenses the model's `Cls`
+    (the library class an object is an instance of).  Fails for `type(x) is C` / dict-on-`__class__` code. -/
+theorem gen_classify_subclasses :
+    Gen.C18.classifyWhich 6 = Gen.C18.classifyWhich 3 ∧ Gen.C18.classifyWhich 5 = Gen.C18.classifyWhich 2 ∧
+    Gen.C18.classifyWhich 4 = Gen.C18.classifyWhich 1 := by decide
+
 /-- **gen_classify_eq**: `classify_catalog` assembled from the regenerated table IS the model `classify`, for
     every catalogue — so `classify_stable_partition` and everything downstream speak about the code's own chain -/
 theorem gen_classify_eq (cat : List (Src α)) : classifyG Gen.C18.classifyWhich cat = classify cat := by
